@@ -82,7 +82,9 @@ class Facts:
         out = []
         maxsize = h.world.server.max_http_buffer_size
         if c is not None:
-            for req in c.posts + c.raws:
+            # (a session id is a bearer token: a POST from any client that
+            # names it counts)
+            for req in [r for cl in h.clients for r in cl.posts + cl.raws]:
                 if req.method != 'POST' or req.seq_arrive is None:
                     continue
                 if ('sid=' + sid) not in req.query:
@@ -200,6 +202,43 @@ class Facts:
         self._causes[sid] = out
         return out
 
+    def _post_processes_pong(self, req):
+        """Does the reference dispatcher reach a PONG in this POST body?  A
+        body that is refused as a whole (too long, too many packets,
+        undecodable) is not processed at all; a CLOSE or a refused packet
+        type ends the processing of the body.  Where the reference is not
+        certain about a packet in front of the PONG, the PONG counts."""
+        h = self.h
+        try:
+            declared = len(req.body) if req.declared is None \
+                else _int(req.declared)
+            if declared is None or \
+                    declared > h.world.server.max_http_buffer_size:
+                return False
+            text = req.body[:declared].decode('utf-8')
+        except UnicodeDecodeError:
+            return False
+        try:
+            pk = R.ref_payload_decode(
+                text, h.world.app_opts.get('max_decode_packets', 16))
+        except R.RefError:
+            try:
+                parts = R.ref_payload_split(text)
+            except R.RefError:
+                return False
+            if len(parts) > h.world.app_opts.get('max_decode_packets', 16):
+                return False
+            # some packet is undecodable: certain only for what precedes it
+            return any(p.startswith('3') for p in parts)
+        for (pt, d, cert) in pk:
+            if cert != 'exact' or pt is None:
+                return any(p2 == R.PONG for (p2, _d, _c) in pk)
+            if pt == R.PONG:
+                return True
+            if pt not in (R.MESSAGE, R.UPGRADE):
+                return False
+        return False
+
     def pong_arrivals(self, sid):
         """Server-side arrival times of PONG packets for this session."""
         s = self.sess[sid]
@@ -210,14 +249,10 @@ class Facts:
         for req in c.posts:
             if req.seq_arrive is None or ('sid=' + sid) not in req.query:
                 continue
-            try:
-                if any(p.startswith('3') for p in
-                       req.body.decode('utf-8').split(R.SEP)):
-                    out.append(req.t_done if (self.has_sleep and
-                                              req.t_done is not None)
-                               else req.t_arrive)
-            except UnicodeDecodeError:
-                pass
+            if self._post_processes_pong(req):
+                out.append(req.t_done if (self.has_sleep and
+                                          req.t_done is not None)
+                           else req.t_arrive)
         seen = set()
         for conn in (self.main_ws(sid), self.server_upgraded_conn(sid)):
             if conn is None or id(conn) in seen:
